@@ -988,6 +988,13 @@ class Assembler:
                         j_ += 1
                     return j_ - 1
                 inner = [c for c in closures if any(c[1] < kx <= c_end(c) for kx in kxs)]
+                if not inner and len(closures) >= len(spec.get('closure', [])):
+                    # no closure contains the text, but no closure was deleted either: its content changed (a rename ..).  The
+                    # contract goes to the closure at its ordinal position, so that a harmless rename is undecided or still
+                    # verifies instead of losing its contract and failing the enclosing postcondition
+                    pos_ = [i2_ for i2_, c2_ in enumerate(spec.get('closure', [])) if c2_ is cl or c2_ == cl]
+                    if pos_ and pos_[0] < len(closures):
+                        inner = [closures[pos_[0]]]
                 if not inner:
                     if cl.get('optional'):
                         self.dropped_closure_contracts.append('%s: closure contract for the closure containing `%s` (no such closure)' % (fnname, cl['containing']))
